@@ -255,7 +255,7 @@ func parseContractFile(path string) (*ContractFile, error) {
 				cur.Locals = rest
 			case "split":
 				cur.Split = rest
-			case "requires", "ensures", "assigns", "assume", "use":
+			case "requires", "ensures", "assigns", "assume", "use", "gassign":
 				c := &RawClause{Kind: word, Loop: -1, Line: ln}
 				c.Label, c.Props, c.Text = splitLabel(rest)
 				if !layerSkips(c.Props) {
@@ -574,6 +574,9 @@ func govcIsUEOF(err error) bool                           { return false }
 func govcErrIs[T any](err error, target T) bool           { return false }
 func govcSameBase[T any](a, b []T) bool                   { return true }
 func govcOffset[T any](a []T) int                         { return 0 }
+func govcGassign[T any](id int, target, value T, cond bool) int { return 0 }
+
+const govcStar = -1
 `
 
 // genOverlay produces the Go source of the overlay file of one package.
@@ -632,7 +635,7 @@ func genOverlay(cf *ContractFile) (string, error) {
 			case "assigns":
 				// list of locations
 				for _, loc := range splitTop(cl.Text, ",") {
-					loc = strings.TrimSpace(loc)
+					loc = strings.ReplaceAll(strings.TrimSpace(loc), ", *)", ", govcStar)")
 					if loc == "" || loc == "nothing" {
 						continue
 					}
@@ -643,6 +646,26 @@ func genOverlay(cf *ContractFile) (string, error) {
 						fmt.Fprintf(body, "\t_ = govcLoc(%d, %s)\n", id, rewriteBuiltins(loc))
 					}
 				}
+			case "gassign":
+				// ghost assignment at normal return: G(keys) := value [when cond]
+				txt, cond := cl.Text, "true"
+				if i := strings.LastIndex(txt, " when "); i >= 0 {
+					cond = strings.TrimSpace(txt[i+len(" when "):])
+					txt = txt[:i]
+				}
+				parts := strings.SplitN(txt, ":=", 2)
+				if len(parts) != 2 {
+					return "", fmt.Errorf("%s:%d: gassign needs `ghost(keys) := value [when cond]`", c.File, cl.Line)
+				}
+				lv, err := lowerExpr(parts[1])
+				if err != nil {
+					return "", fmt.Errorf("%s:%d: %v", c.File, cl.Line, err)
+				}
+				lc, err := lowerExpr(cond)
+				if err != nil {
+					return "", fmt.Errorf("%s:%d: %v", c.File, cl.Line, err)
+				}
+				fmt.Fprintf(body, "\t_ = govcGassign(%d, %s, %s, %s)\n", id, rewriteBuiltins(strings.ReplaceAll(strings.TrimSpace(parts[0]), ", *)", ", govcStar)")), rewriteBuiltins(lv), rewriteBuiltins(lc))
 			case "use":
 				fmt.Fprintf(body, "\t_ = govcClause(%d, lemma_%s)\n", id, rewriteBuiltins(strings.TrimSpace(cl.Text)))
 			case "decreases":
